@@ -406,6 +406,18 @@ impl<'a> Gen<'a> {
                 }
             }
             labels.push("transient".into());
+            // crashes at arbitrary points INSIDE code generation: a call panics at its nth accessor
+            // yield point (in the middle of schema conversion, query resolution or rendering)
+            if rng.chance(1, 2) {
+                let k = rng.range(1, 3);
+                for _ in 0..k {
+                    let t = rng.below(threads.len());
+                    let c = rng.below(threads[t].len());
+                    let f = json!({"site": "panic", "path": "", "thread": t, "call": c, "nth": rng.below(260)});
+                    faults.push(f);
+                }
+                labels.push("crash-inside-codegen".into());
+            }
         }
 
         let total_calls: usize = threads.iter().map(|t| t.len()).sum();
